@@ -149,6 +149,11 @@ def oracle(abbr, cfg, meta, r):
     exp = meta.get('lines') if meta else None
     if exp is not None:
         got = out.split('\n')
+        if meta.get('ci_names'):
+            # output.tagCase: whether the indent formats apply it to names is not part of the statement; the line
+            # structure and the omission of `div` are -- compare without regard to letter case
+            got = [x.lower() for x in got]
+            exp = [x.lower() for x in exp]
         if got != exp:
             k = 0
             while k < min(len(got), len(exp)) and got[k] == exp[k]:
@@ -475,6 +480,17 @@ def gen(ctx):
         for nm in ('p', 'div', 'custom'):
             add([(g.El(name=nm, self_close=True), '+'), (g.El(name='ul'), '>'), (g.El(name=nm, self_close=True, classes=['k']), '+'),
                  (g.El(name=None, classes=['x']), '')], syntax, '\t', 'self-close')
+    # 3a. output.tagCase set: same lines (letter case of names aside), `div` still omitted when an id/class is present
+    for syntax in SYNTAXES:
+        for tc in ('upper', 'lower'):
+            for st in ([(g.El(name='div', classes=['wrap']), '>'), (g.El(name='div', id='main'), '+'), (g.El(name='p', classes=['c']), '>'), (g.El(name='div'), '')],
+                       [(g.El(name=None, classes=['x']), '>'), (g.El(name='section', id='s'), '>'), (g.El(name=None, id='k', classes=['y']), '')]):
+                abbr = g.render(st)
+                tree = g.unroll(g.denote_stmt(st))
+                cfg = cfg_of(syntax, '\t')
+                cfg['options']['output.tagCase'] = tc
+                cases.append((abbr, cfg, {'lines': expected_lines(tree, syntax, '\t'), 'tree': False, 'ci_names': True}))
+                ctx.cover('gen:tagCase-set')
     # 3b. text-only nodes with several lines between elements: the elements keep their lines and depths
     for abbr, depths in TEXT_NODE_CASES:
         for syntax in SYNTAXES:
